@@ -23,8 +23,9 @@ TRUSTED = [
     "data of build_periodic_table.py -> Gen/Srd144.v, verbatim), periodgroup.py (to_period/to_group ladders -> Gen/PeriodGroup.v)",
     "hand-written model coq/Model/PeriodicTable.v of PeriodicTable.__init__/_resolve_atom_to_key/accessors and "
     "coq/Common/PyAscii.v (ASCII str.capitalize/lower, CPython int(str) incl. 4300-digit limit), tied by differential execution",
-    "CPython dict/zip/str/int/Decimal/float(str) semantics are modelled, not verified; float(mass) is modelled as the correctly rounded "
-    "double (Common/NearestDouble.v, integer arithmetic) and compared exactly with the implementation's float (decomposed by math.frexp)",
+    "CPython dict/zip/str/int/Decimal/float(str) semantics are modelled, not verified; float(mass) is modelled on the shipped digit string "
+    "(Model/PeriodicTableFloat.v float_of_decstr -> Common/NearestDouble*.v, integer arithmetic), proved to be the nearest double of the "
+    "fraction the string denotes, and compared exactly with the implementation's float (decomposed by math.frexp)",
     "the standard reading of binary64: the doubles around x in a binade with unit 2^e are the integer multiples of 2^e with 53-bit significands",
     "the specification functions in Model/PeriodicTable.v (most_abundant, default_iso, i_labels, ref_period, ref_group) and the "
     "Python mirror of them in this file",
@@ -260,9 +261,12 @@ class Spec:
         self.species = {}      # capitalised label -> dict(Z, E, name, A, mass)
         self.elements = []     # (Z, E, name)
         self.labels_by_el = {}
-        self.species["X"] = dict(Z=0, E="X", name="Dummy", A=0, mass="0")
-        self.species["X0"] = dict(Z=0, E="X", name="Dummy", A=0, mass="0")
-        self.elements.append((0, "X", "Dummy"))
+        dm = srd144.load_build.dummy      # the rows build_periodic_table.py seeds its arrays with (set by load_build)
+        dnames = {e: (z, n) for z, e, n in zip(dm["Z"], dm["E"], dm["name"])}
+        for ee, ea, a, m in zip(dm["_EE"], dm["EA"], dm["A"], dm["masses"]):
+            self.species[ea] = dict(Z=dnames[ee][0], E=ee, name=dnames[ee][1], A=a, mass=m)
+        for z, e, n in zip(dm["Z"], dm["E"], dm["name"]):
+            self.elements.append((z, e, n))
         for sym, zs, isos in raw:
             E = newnames.get(sym, sym)
             Z = int(zs)
@@ -342,8 +346,9 @@ def oracle(spec, x, o):
         if o["group"] != ("Ok", pos[1]):
             return f"group: got {o['group']!r}, standard table says {pos[1]}"
     else:
-        if o["period"][0] != "Ok" or o["group"][0] != "Ok":
-            return f"period/group raised for the dummy: {o['period']!r} {o['group']!r}"
+        # the dummy has no position in the standard table; pinned behaviour (theorem C01_dummy_period_group): period 1, no group
+        if o["period"] != ("Ok", 1) or o["group"] != ("Ok", None):
+            return f"dummy (Z=0): period/group {o['period']!r} {o['group']!r}, expected period 1 and no group"
     is_el = key in spec.E
     for t, n in (("keyT", "keyF"), ("ZT", "ZF"), ("ET", "EF"), ("nameT", "nameF")):
         if is_el and o[t] != o[n]:
@@ -770,10 +775,14 @@ LEVEL_TEXT = (
     "Machine-checked (Coq 8.16.1) theorems about Model/PeriodicTable.v over tables regenerated from /repo on every run: "
     "C01_case_insensitive (ALL ASCII strings differing only in letter case give identical answers/errors from every accessor, strict or not); "
     "C01_alias_invariance (every element row: int Z, digit string, symbol, name, any case, strict or not -> the same key and identical "
-    "accessor answers); C01_nuclide_labels_resolve; C01_faithful_isotopes and C01_faithful_bare_element (every element and all 3349 isotope "
+    "accessor answers); C01_int_of_str_roundtrip and C01_digit_string_is_int (int(str(z)) = z and str(z) resolves exactly like z for EVERY "
+    "integer up to CPython's 4300-digit limit, inside and outside the table); C01_nuclide_labels_resolve; C01_faithful_isotopes and C01_faithful_bare_element (every element and all 3349 isotope "
     "rows of the raw SRD-144 JSON: Z, renamed symbol, SP-966 name, A, mass as exact decimal and digit string; bare element = isotope of "
     "largest composition else tabulated longest-lived, recomputed in Gallina from the raw strings; C01_default_isotope_rule: that choice is a maximal-composition / longest-lived isotope of the raw data); C01_only_srd_species / "
-    "C01_element_columns_exact (nothing else is in the table); C01_float_mass_is_nearest_double with C01_rne_nearest_even and C01_nearest_double_correct "
+    "C01_element_columns_exact / C01_dummy_rows_as_seeded (nothing else is in the table; the dummy rows are those translated from the build "
+    "script's array seeds); C01_dummy_period_group (Z = 0: period 1, no group); C01_float_of_string_agrees, C01_float_models_agree, "
+    "C01_float_mass_from_shipped_string (float(str) modelled on the digit string itself: for ALL strings equal to Decimal-then-round, and the "
+    "float mass is the nearest double of the fraction the shipped mass string denotes); C01_float_mass_is_nearest_double with C01_rne_nearest_even and C01_nearest_double_correct "
     "(the float mass is the binary64 nearest to the decimal, ties to even, in integer arithmetic; the rounding model is proved correct for "
     "ALL positive decimals in the normal exponent range, 53-bit significand always); C01_period_group_standard / C01_ladder_is_reference "
     "(translated ladder = 18-column reference written from noble-gas boundaries, Z=1..118); C01_strict_exact, C01_strict_rejects_nuclides; "
@@ -789,5 +798,6 @@ LEVEL_NOTE = (
     "(value_part, most_abundant with exact decimal comparison where the build script compares floats, i_labels, ref_period/ref_group). "
     "Nearest-double: rounding and 53-bit normalisation are proved for all positive decimals; only the exponent-range condition is evaluated per "
     "table entry; that CPython float(str) is this function is tied by exact comparison of every tabulated mass, not proved. "
-    "Non-ASCII identifiers, float/bool identifiers are outside the model. Z=0 (dummy) has no standard period/group; only correspondence "
-    "covers it. No axioms (all theorems closed under the global context).")
+    "Non-ASCII identifiers, float/bool identifiers are outside the model (floats are issued as history-makers only). Z=0 (dummy) has no "
+    "standard position: its period 1 / no group is pinned behaviour (theorem + oracle). Hand-written on purpose: the 18-column reference and "
+    "the specification functions; all table-derived data (incl. the dummy rows) now come from translators. No axioms (all theorems closed under the global context).")
